@@ -2094,7 +2094,8 @@ func (d *decoderSimpleBytes) kArray(f *decFnInfo, rv reflect.Value) {
 	rvlen := rv.Len()
 	hasLen := containerLenS >= 0
 	if hasLen && containerLenS > rvlen {
-		halt.errorf("cannot decode into array with length: %v, less than container length: %v", any(rvlen), any(containerLenS))
+
+		d.arrayCannotExpand(rvlen, containerLenS)
 	}
 
 	var elemReset = d.h.SliceElementReset
@@ -5884,7 +5885,8 @@ func (d *decoderSimpleIO) kArray(f *decFnInfo, rv reflect.Value) {
 	rvlen := rv.Len()
 	hasLen := containerLenS >= 0
 	if hasLen && containerLenS > rvlen {
-		halt.errorf("cannot decode into array with length: %v, less than container length: %v", any(rvlen), any(containerLenS))
+
+		d.arrayCannotExpand(rvlen, containerLenS)
 	}
 
 	var elemReset = d.h.SliceElementReset
